@@ -20,20 +20,26 @@ def perturb(src, seed, mode):
             new.append(t)
             if k == len(toks) - 1 or t == '' or toks[k + 1] == '': continue
             r = rnd.random()
-            if mode == 'block' and r < 0.25: new.append(rnd.choice(COMMENTS))
+            if mode == 'glue' and r < 0.3: new[-1] = t + rnd.choice(COMMENTS) + '\x00'      # the comment replaces the separating blank
+            elif mode == 'block' and r < 0.25: new.append(rnd.choice(COMMENTS))
             elif mode == 'splice' and r < 0.2: new[-1] = t + ' \\\n'
             elif mode == 'tabs' and r < 0.4: new[-1] = t + '\t'
             elif mode == 'mixed':
                 if r < 0.12: new.append(rnd.choice(COMMENTS))
                 elif r < 0.2: new[-1] = t + ' \\\n'
                 elif r < 0.3: new[-1] = t + '\t\t'
-        l2 = ' '.join(new)
+        l2 = ' '.join(new).replace('\x00 ', '')
         r = rnd.random()
         if mode in ('line', 'mixed') and r < 0.35 and not l2.rstrip().endswith('\\'): l2 += ' ' + rnd.choice(LINE_COMMENTS)
         out.append(l2)
         if mode in ('blank', 'mixed') and rnd.random() < 0.3: out.append('')
         if mode in ('block', 'mixed') and rnd.random() < 0.15: out.append('/* multi\n   line "comment\n   // still inside */')
     s = '\n'.join(out)
+    if mode == 'oneline':
+        # several statements per line, and statements on the very last line (with and without a final newline)
+        keep = [l for l in src.split('\n') if l.startswith('#')]
+        rest = ' '.join(l.strip() for l in src.split('\n') if not l.startswith('#'))
+        s = '\n'.join(keep + [rest]) + ('\n' if seed % 2 else '')
     if mode == 'crlf': s = s.replace('\n', '\r\n')
     return s
 
@@ -46,9 +52,11 @@ def run(tier):
     def variants(p):
         seed = int(hashlib.md5(p.pid.encode()).hexdigest()[:6], 16) + rep.seed
         v = [('plain', [], None), ('insert_code', ['--insert-code'], None), ('Wall', ['-W', 'all'], None), ('insert_code+Wall', ['--insert-code', '-W', 'all'], None)]
-        for mode in ('block', 'line', 'blank', 'splice', 'tabs', 'crlf', 'mixed'):
+        for mode in ('block', 'glue', 'line', 'blank', 'splice', 'tabs', 'crlf', 'oneline', 'mixed'):
             v.append(('layout:' + mode, [], (lambda p, mode=mode: perturb(p.c(), seed, mode))))
         v.append(('layout:mixed+insert_code', ['--insert-code'], (lambda p: perturb(p.c(), seed + 1, 'mixed'))))
+        v.append(('layout:oneline+insert_code', ['--insert-code'], (lambda p: perturb(p.c(), seed, 'oneline'))))
+        v.append(('layout:oneline-nl+insert_code', ['--insert-code'], (lambda p: perturb(p.c(), seed + 1, 'oneline'))))
         return v
     allstats, samples = {}, []
     for lvl in (['-O1'], ['-O0']):
@@ -68,7 +76,7 @@ def run(tier):
     rep.cov = dict(programs=tot('accepted'), disagreements_checked=tot('disagreements_checked'), samples=samples, variant_pairs=tot('variants'),
                    identical_by_text=tot('identical_by_text'), decided_by_solver=tot('decided'), variant_rejected=tot('variant_err'), variant_crash=tot('variant_crash'),
                    unsupported=tot('unsupported'), queries=tot('queries'), solver_s=round(tot('solver_s'), 1),
-                   bounds=dict(options=['--insert-code', '-W all'], layout_modes=['block comments', '// comments', 'blank lines', 'splices', 'tabs', 'CR-LF', 'mixed'],
+                   bounds=dict(options=['--insert-code', '-W all'], layout_modes=['block comments', 'block comments glued between tokens', '// comments', 'blank lines', 'splices', 'tabs', 'CR-LF', 'whole program on one line (with/without final newline)', 'mixed'],
                                placements='between any two tokens of the generated source, pseudo-random per program (seeded)'), stats=allstats)
     rep.assumptions = ['as C02', 'layout noise is inserted only at token boundaries of my own printer output; pest WHITESPACE/COMMENT rules themselves are exercised, not encoded']
     return rep.finish()
